@@ -15,7 +15,7 @@ EXPLANATION = (
     "whose value reaches the public output X (and HitWindows.ar / od_great for ar / od), and no other attribute slot "
     "reaches it (R4); every HR/EZ-dependent scaling (arithmetic under a hr()/ez() test, a multiplication by od_ar_hp_multiplier(), or a call "
     "of a helper / closure that does so to its argument) of a value read from slot X happens only where X.with_mods() is known to be false (R5: "
-    "necessary for 'a value given with with_mods=true is reported back unchanged'). Round trip, monotonicity, HR/EZ ordering are real analysis over a piecewise-linear map: NOT decided.")
+    "necessary for 'a value given with with_mods=true is reported back unchanged'). R7: OsuDifficultyAttributes::od() is the builder's own conversion of the great hit window (same expression with the hit window as W). Round trip, monotonicity, HR/EZ ordering are real analysis over a piecewise-linear map: NOT decided.")
 
 B = 'model::beatmap::attributes::BeatmapAttributesBuilder'
 ATTRS4 = ('ar', 'od', 'cs', 'hp')
